@@ -63,7 +63,7 @@ BY_GROUP = {
 ENTRIES = ["ctor", "setter", "override", "yaml"]
 # keys of an item that say HOW it is run, not WHAT is run: two items that differ only in these are the
 # same configuration and must give the same result
-NON_SEMANTIC = ("via", "stale_seed", "proc", "delay", "parallel", "cfg", "yaml_null")
+NON_SEMANTIC = ("via", "stale_seed", "proc", "delay", "predelay", "parallel", "cfg", "yaml_null")
 NON_SEMANTIC_ENTRY = ("seed_via", "stale_seed")
 
 
@@ -259,7 +259,7 @@ def gen_island_sessions(r, quick: bool):
     for c in range(1 if quick else 3):
         n = r.choice([3, 4]) if c else 3
         # the optimiser seed at its boundaries too (0 is falsy, 100000 is the largest the setter accepts)
-        pg_seed = [0, 100000, r.randrange(1, 100000)][(c + r.randrange(3)) % 3] if c or r.random() < 0.5 else 0
+        pg_seed = [0, 100000, r.randrange(1, 100000)][c % 3]
         cal = dict(op="calibration", pipeline=det_cal_pipeline(), pipeline_seed=None, pygmo_seed=pg_seed,
                    pop=r.choice([7, 8]), generations=1, evolutions=1, islands=n,
                    topology="unconnected" if c != 1 else "ring")
@@ -268,7 +268,8 @@ def gen_island_sessions(r, quick: bool):
         mid = [round(step * ((k * 2 + 1) % n), 2) for k in range(n)]     # some other order
         fwd_ = [round(step * k, 2) for k in range(n)]                    # the first created finishes first
         items = [dict(copy.deepcopy(cal), delay=fwd_), dict(op="seed", j=r.randrange(2 ** 32)),
-                 dict(copy.deepcopy(cal), delay=rev), dict(copy.deepcopy(cal), parallel=False, delay=[0.0] * n)]
+                 dict(copy.deepcopy(cal), delay=rev, predelay=[round(0.15 * (n - 1 - k), 2) for k in range(n)]),
+                 dict(copy.deepcopy(cal), parallel=False, delay=[0.0] * n)]
         if not quick:
             items.insert(3, dict(copy.deepcopy(cal), delay=mid))
             items.append(dict(copy.deepcopy(cal), delay=[0.0] * n))          # whatever order the threads take
@@ -529,6 +530,7 @@ def classify(sess, obs):
                     d["across"] = "entries"
                     d["via"] = sorted([items[i].get("via", "ctor"), items[j].get("via", "ctor")])
                 elif aux(a) != aux(b) or items[i].get("delay") != items[j].get("delay") \
+                        or items[i].get("predelay") != items[j].get("predelay") \
                         or items[i].get("parallel") != items[j].get("parallel"):
                     d["across"] = "island_completion_orders"
                 return "not_reproducible", [i, j], d
